@@ -2,8 +2,8 @@
 (***************************************************************************)
 (* Trace validation for the concurrent part of C09.                        *)
 (*                                                                         *)
-(* trace.ndjson is a recording of goroutines calling Get / Set / Delete of *)
-(* a real store.WriteControlledStore:                                      *)
+(* trace.ndjson is a recording of goroutines calling Get / Set / Delete /  *)
+(* List of a real store.WriteControlledStore:                              *)
 (*   {"e":"reset"}                         a new history (fresh store)     *)
 (*   {"e":"start","p":g,"op":..,"id":..,"c":..}   call begins              *)
 (*   {"e":"enter","p":g}  {"e":"exit","p":g}      the call is inside the   *)
@@ -15,6 +15,11 @@
 (* between its enter and exit event (TLC chooses the point), and returns   *)
 (* the reply the KV layer gives there.  MutualExclusion of the concurrency *)
 (* layer is evaluated on the observed enter/exit events (TraceExclusion).  *)
+(* List takes no lock and reads the directory while files come and go: it  *)
+(* is not one atomic action.  What holds for it: an id it returns was      *)
+(* stored at some moment while the call was inside the store, an id it     *)
+(* does not return was absent at some such moment, and it returns nothing  *)
+(* else ("ids" of its end event; an id nobody stores is not in TraceIds).  *)
 (***************************************************************************)
 EXTENDS GluonStore, IOUtils, TLCExt
 
@@ -25,7 +30,10 @@ TraceLog == ndJsonDeserialize("trace.ndjson")
 VARIABLES l, pend, inside
 traceVars == <<l, pend, inside>>
 
-Idle == [op |-> "none", id |-> "", c |-> "", stage |-> "idle", st |-> "", val |-> ""]
+\* may / mayNot (List only): the ids seen present / absent at some moment while the call is inside the store
+Idle == [op |-> "none", id |-> "", c |-> "", stage |-> "idle", st |-> "", val |-> "", may |-> {}, mayNot |-> {}]
+Seen(pd, p, k) == IF pd[p].op = "List" /\ pd[p].stage = "inside"
+                  THEN [pd[p] EXCEPT !.may = @ \cup Present(k), !.mayNot = @ \cup (TraceIds \ Present(k))] ELSE pd[p]
 
 TraceInit ==
   /\ kv = [i \in TraceIds |-> Absent]
@@ -50,29 +58,31 @@ TReset ==
 TStart ==
   /\ IsEvent("start")
   /\ pend[Ev.p].stage = "idle"
-  /\ pend' = [pend EXCEPT ![Ev.p] = [op |-> Ev.op, id |-> Ev.id, c |-> Ev.c, stage |-> "started", st |-> "", val |-> ""]]
+  /\ pend' = [pend EXCEPT ![Ev.p] = [op |-> Ev.op, id |-> Ev.id, c |-> Ev.c, stage |-> "started", st |-> "", val |-> "", may |-> {}, mayNot |-> {}]]
   /\ UNCHANGED <<kv, last, inside>> /\ Frame
 
 TEnter ==
   /\ IsEvent("enter")
   /\ pend[Ev.p].stage = "started"
-  /\ pend' = [pend EXCEPT ![Ev.p].stage = "inside"]
+  /\ pend' = [pend EXCEPT ![Ev.p].stage = "inside", ![Ev.p].may = Present(kv), ![Ev.p].mayNot = TraceIds \ Present(kv)]
   /\ inside' = inside \cup {Ev.p}
   /\ UNCHANGED <<kv, last>> /\ Frame
 
 \* the call takes effect: one atomic action of the KV layer (not a logged event)
 TLinearize(p) ==
   /\ l <= Len(TraceLog)
-  /\ pend[p].stage = "inside"
+  /\ pend[p].stage = "inside" /\ pend[p].op # "List"
   /\ CASE pend[p].op = "Set"    -> KVSet(pend[p].id, pend[p].c, "Set")
        [] pend[p].op = "Get"    -> KVGet(pend[p].id)
        [] pend[p].op = "Delete" -> KVDelete(<<pend[p].id>>)
-  /\ pend' = [pend EXCEPT ![p].stage = "done", ![p].st = last'.reply.st, ![p].val = last'.reply.val]
+  \* every List that is inside the store right now may see the new state
+  /\ pend' = [q \in TraceProcs |-> IF q = p THEN [pend[p] EXCEPT !.stage = "done", !.st = last'.reply.st, !.val = last'.reply.val]
+                                   ELSE Seen(pend, q, kv')]
   /\ UNCHANGED <<l, inside>> /\ Frame
 
 TExit ==
   /\ IsEvent("exit")
-  /\ pend[Ev.p].stage = "done"
+  /\ pend[Ev.p].stage = (IF pend[Ev.p].op = "List" THEN "inside" ELSE "done")
   /\ pend' = [pend EXCEPT ![Ev.p].stage = "left"]
   /\ inside' = inside \ {Ev.p}
   /\ UNCHANGED <<kv, last>> /\ Frame
@@ -81,7 +91,12 @@ TExit ==
 TEnd ==
   /\ IsEvent("end")
   /\ pend[Ev.p].stage = "left"
-  /\ pend[Ev.p].st = Ev.st /\ pend[Ev.p].val = Ev.val
+  /\ IF pend[Ev.p].op = "List"
+     THEN LET listed == {Ev.ids[i] : i \in 1..Len(Ev.ids)} IN
+          /\ Ev.st = "ok"
+          /\ listed \subseteq pend[Ev.p].may                      \* (an id outside TraceIds is in nobody's may)
+          /\ (TraceIds \ listed) \subseteq pend[Ev.p].mayNot
+     ELSE pend[Ev.p].st = Ev.st /\ pend[Ev.p].val = Ev.val
   /\ pend' = [pend EXCEPT ![Ev.p] = Idle]
   /\ UNCHANGED <<kv, last, inside>> /\ Frame
 
